@@ -115,8 +115,10 @@ claim("C04",
       "Flattener::fold_expr is external (ghost log of (expression, frame in effect)); slices drop the rest of resolve_special_func / "
       "translate_windowed; unpack_as_int_literal and sqlparser value construction are trusted by contract.")
 
-prop("C18", ["dialect_select"],
-     not_covered="'the choice never changes which programs the resolver accepts' is argued from signatures only; that two dialect values "
+prop("C18", ["dialect_select", "set_ops"],
+     select={"set_ops": lambda n: n.split(".", 1)[1] in ("WR1", "WR2", "attach_ctes.safety", "attach_ctes.loop_exit")},
+     not_covered="that nothing behind the resolution reads the option or the header again is NOT proved in general (the thorough sweep executes s-string and loop programs for every dialect; "
+                 "only the WITH clause is under contract: it is a function of the CTEs, set_ops WR1-2); 'the choice never changes which programs the resolver accepts' is argued from signatures only; that two dialect values "
                  "produce the same SQL is not needed (the same value reaches the generator on both routes)")
 claim("C18",
       "Proved on the real code for all (option, header) pairs: sql::compile hands the option's dialect to the generator unchanged (CS1); "
@@ -160,7 +162,7 @@ claim("C05",
       "the search of the Select in the CTE pipeline are dropped by the slices.")
 
 prop("C10", ["resolve_guards", "name_lookup", "lineage_except", "frame_decls"],
-     select={"lineage_except": lambda n: n.split(".", 1)[1] in ("IC1", "IC2", "LE1", "LE2", "LE3")},
+     select={"lineage_except": lambda n: n.split(".", 1)[1] in ("IC1", "IC2", "LE1", "LE2", "LE3", "SH1", "shadow_one.safety")},
      not_covered="NS_INFER declarations (what resolve_ident_fallback infers), insert_frame (which columns a frame declares after select / "
                  "aggregate / group), resolve_ident_fallback inference, validate_expr_type (scalar where a relation is required), lowering's "
                  "`cannot find cid` paths: HashMap-of-Decl recursion; a regression there is not detected by this check")
@@ -170,7 +172,7 @@ claim("C10",
       "Module::lookup returns the direct hits PLUS the hits through every redirect, for any number of redirects and whatever the direct lookup found "
       "(LK1, loop invariant LK2) - so a second candidate in another relation in scope is never missed; apply_args_to_closure returns Err whenever a named "
       "argument is not consumed by a named parameter of the callee (AA1-2); fold_function returns Err for more positional arguments than parameters, a "
-      "function value for fewer, and evaluates only a saturated call (FA1-3). a name that can only be inferred is created from exactly one inference template, is unknown with none and an error with several (resolve_ident_fallback's decision, RF1-3). what one path finds in one module (lookup_in, whole function; the recursion into sub-modules goes through the contract of Module::lookup): `p.rest` finds the members `rest` of the declaration p - of a nested module what its own lookup finds, of layered modules what the INNERMOST layer that finds anything finds (loop invariant over the reversed stack: shadowing), of anything else nothing - qualified with p; an undeclared name finds nothing; a single declared name finds itself or its `_self` (name_lookup LI1-6; Ident::pop_front PF1). `select !{..}` and the inference of a column of a wildcard table compare names exactly (lineage_except LE1-3, IC1-2). what one column of a frame declares: a named column its own name as that column, a star only the `_infer` placeholder of an input that exists in the frame, an unnamed column nothing - every other name untouched (frame_decls FD1-3). NOT proved: that an out-of-frame column has zero candidates (which declarations a frame inserts), relation / "
+      "function value for fewer, and evaluates only a saturated call (FA1-3). a name that can only be inferred is created from exactly one inference template, is unknown with none and an error with several (resolve_ident_fallback's decision, RF1-3). what one path finds in one module (lookup_in, whole function; the recursion into sub-modules goes through the contract of Module::lookup): `p.rest` finds the members `rest` of the declaration p - of a nested module what its own lookup finds, of layered modules what the INNERMOST layer that finds anything finds (loop invariant over the reversed stack: shadowing), of anything else nothing - qualified with p; an undeclared name finds nothing; a single declared name finds itself or its `_self` (name_lookup LI1-6; Ident::pop_front PF1). `select !{..}` and the inference of a column of a wildcard table compare names exactly (lineage_except LE1-3, IC1-2); a newly defined column takes its bare name away from an earlier column that carries it and leaves every other column alone (SH1, per column: the loop over the columns is not under contract); an argument without a frame where a relation is required is an error, and a relation's frame comes into scope as `this` / `that` (resolve_guards GA1-2). what one column of a frame declares: a named column its own name as that column, a star only the `_infer` placeholder of an input that exists in the frame, an unnamed column nothing - every other name untouched (frame_decls FD1-3). NOT proved: that an out-of-frame column has zero candidates (which declarations a frame inserts), relation / "
       "scalar confusion.",
       "HashSet<Ident> is a shim with a ghost set view; in resolve_guards lookup_in is external (it is under contract in name_lookup, where Module::lookup is external: the mutual recursion is cut at the contracts, its termination is not proved); resolve_ident_wildcard, resolve_ident_fallback, ambiguous_error, expr_of_func are "
       "external; the drain loop over named parameters is replaced by its contract (stated in the evidence).")
